@@ -143,6 +143,10 @@ class MemAioTransport(asyncio.Transport):
         self.calls = []
         self.lost_delivered = False
         self.writes_after_lose = 0
+        # a peer that has stopped reading: octets written from now on stay in the write buffer
+        self.stalled = False
+        self.unsent = 0
+        self.close_waits_for_flush = False
 
     # --- asyncio.Transport
     def is_closing(self):
@@ -161,6 +165,8 @@ class MemAioTransport(asyncio.Transport):
             return
         self.written += data
         self.write_sizes.append(len(data))
+        if self.stalled:
+            self.unsent += len(data)
 
     def writelines(self, seq):
         self.write(b"".join(seq))
@@ -175,6 +181,11 @@ class MemAioTransport(asyncio.Transport):
         if self._closing:
             return
         self._closing = True
+        if self.unsent:
+            # selector transports flush their buffer before they report connection_lost; towards a
+            # peer that does not read this never happens (only abort() gets rid of the connection)
+            self.close_waits_for_flush = True
+            return
         self.calls.append("lose")
         self._conn_lost += 1
         self._loop.call_soon(self._call_connection_lost, None)
@@ -208,7 +219,7 @@ class MemAioTransport(asyncio.Transport):
         pass
 
     def get_write_buffer_size(self):
-        return 0
+        return self.unsent
 
     # --- harness side
     @property
@@ -286,7 +297,8 @@ class Conn:
             self.loop.run_ready()
 
     def own_drop_pending(self):
-        return (not self.lost) and self.transport._closing
+        t = self.transport
+        return (not self.lost) and t._closing and (t.aborted or not t.close_waits_for_flush)
 
     def deliver_own_drop(self):
         self.loop.run_ready()
